@@ -207,7 +207,7 @@ pub fn run(e: &'static Engine) {
     }
     e.par(jobs);
     // short payloads in forced (larger) versions: pure padding blocks, segments ending at a block boundary
-    let total: u32 = e.tier.pick(6400, 96000);
+    let total: u32 = e.tier.pick(32000, 256000);
     let shards = e.tier.pick(32u32, 96);
     let mut jobs: Vec<Job> = Vec::new();
     for _ in 0..shards {
